@@ -231,8 +231,13 @@ func deepEqual(a, b val.V) Res {
 	case "bool":
 		return bres(a.B == b.B)
 	case "int":
+		// an integer above MaxInt64 (uint) equals only the same integer: two different numbers are not equal,
+		// whatever the width they need
+		if a.K == "uint" && b.K == "uint" {
+			return bres(a.U == b.U)
+		}
 		if a.K == "uint" || b.K == "uint" {
-			return Unspecified // beyond int64: crash-freedom is C09's subject
+			return False
 		}
 		return bres(a.I == b.I)
 	case "float":
